@@ -340,8 +340,9 @@ Definition xfile_legalb (wb : lwb) (ch : xchoice) : bool :=
   && (Cfb.flat_rootb cont (xc_layout ch)
       || (Cfb.linked_treeb cont (xc_layout ch) && (Cfb.parent_of cont (wb_object ch) =? 0)))
   && Cfb.valid_layoutb cont (xc_layout ch) && Cfb.names_uniqueb cont
-  && negb (Cfb.mem_list VBA_CUR (Cfb.all_names cont))
-  && (negb (xc_book ch) || negb (Cfb.mem_list Cfb.WORKBOOK (Cfb.all_names cont))).
+  (* (names compare up to ASCII case since the fix of CFB-1: Cfb.mem_name, Cfb.names_uniqueb) *)
+  && negb (Cfb.mem_name VBA_CUR (Cfb.all_names cont))
+  && (negb (xc_book ch) || negb (Cfb.mem_name Cfb.WORKBOOK (Cfb.all_names cont))).
 
 Section Legal.
 Variable fdiv100 : N -> N.
